@@ -56,9 +56,12 @@ func c17Host(c *core.Ctx) string {
 var c17Paths = []string{
 	"", "/", "/path", "/a//b", "/a:b", "/a@b", "/a?b", "/http://evil.com/", "/p.js", "/?x=1", "//", "/a/b/c.png",
 	"/:80", "/@", "/%20x", "/a;b=c", "/~user", "/a,b", "/a|b",
+	// ASCII capitals followed by non-ASCII capitals, by letters whose lower case
+	// has another byte length, and by bytes that are not UTF-8.
+	"/Wiki/Ärzte", "/A/ПРИВЕТ/b", "/X\xff\xfeY", "/Ünï/ÇA", "/İstanbul/I", "/K\u212aelvin", "/SS/\u1e9e",
 }
 
-var c17Queries = []string{"", "?", "?a=b", "?u=http://x.com/", "?@", "?:", "?a=b&c=d", "?//", "?a?b", "?q=a/b", "?x=%41"}
+var c17Queries = []string{"", "?", "?a=b", "?u=http://x.com/", "?@", "?:", "?a=b&c=d", "?//", "?a?b", "?q=a/b", "?x=%41", "?Q=ÖSTERREICH", "?A=\xc3", "?Stadt=Zürich&Land=ÖSTERREICH"}
 
 var c17Ports = []string{"", "", "", ":80", ":8080", ":443", ":", ":0", ":65535"}
 
